@@ -18,13 +18,15 @@
      "noclose"    naive repair: never close, delivery is a bare send          (leaks a blocked goroutine)
      "done"       repair: per-client done channel closed on exit; delivery = select {events<-e | <-done}
      "lockedsend" plausible mutant: Send delivers inline while holding m      (broadcaster blocks)
+     "serial"     plausible mutant of "done": ONE goroutine per broadcast delivers to the clients one after the
+                  other (head-of-line blocking behind a stalled client)
      "timeoutdrop" plausible mutant of "done": a delivery gives up after a while although its client is
                   still registered and connected (a slow reader misses the reload for good)              *)
 EXTENDS Integers, FiniteSets, Sequences, TLC, Json
 
 CONSTANTS Clients,     \* set of strings, e.g. {"c1","c2"}
           NB,          \* number of broadcasts (issued back to back by one broadcaster)
-          Design,      \* "close" | "noclose" | "done" | "lockedsend" | "timeoutdrop"
+          Design,      \* "close" | "noclose" | "done" | "lockedsend" | "serial" | "timeoutdrop"
           MaxPings,    \* timer ticks per handler explored by MC (the first tick is at time 0)
           PingFirst,   \* TRUE (replay models): the time-0 ping is folded into Register, no later ticks
           NoRaces,     \* TRUE (replay models): do not enter states in which a select has two ready cases
@@ -59,7 +61,10 @@ Init == /\ pc = [c \in Clients |-> "new"]
 
 Connected(c) == pc[c] \in {"loop", "writing"}
 Closes == Design = "close"
-HasDone == Design \in {"done", "lockedsend", "timeoutdrop"}
+HasDone == Design \in {"done", "lockedsend", "serial", "timeoutdrop"}
+\* a STALLED client: connected, its handler blocked in a write (the browser does not drain its socket), its request
+\* context not cancelled -- it neither receives from its channel nor closes done. For c \in Slow this may last for ever.
+Stalled(c) == pc[c] = "writing" /\ ~cancelled[c]
 
 -----------------------------------------------------------------------------
 (* handler of client c *)
@@ -150,7 +155,9 @@ BSpawn ==
        /\ IF Design = "lockedsend"
           THEN /\ dl' = [c \in Clients |-> IF c \in requests THEN [dl[c] EXCEPT ![b] = "queued"] ELSE dl[c]]
                /\ bpc' = "inline" /\ UNCHANGED m
-          ELSE /\ dl' = [c \in Clients |-> IF c \in requests THEN [dl[c] EXCEPT ![b] = "spawned"] ELSE dl[c]]
+          ELSE /\ dl' = [c \in Clients |-> IF c \in requests
+                                             THEN [dl[c] EXCEPT ![b] = IF Design = "serial" THEN "queued" ELSE "spawned"]
+                                             ELSE dl[c]]
                /\ bpc' = "idle" /\ m' = "free"
        /\ lbl' = [a |-> "bspawn", b |-> b, targets |-> requests]
     /\ UNCHANGED <<pc, cancelled, wr, pings, requests, ch, done, got, bcur, panicked>>
@@ -188,9 +195,18 @@ Run(c, b) ==
 
 \* "done" design: case <-done
 Abandon(c, b) ==
-    /\ Design \in {"done", "timeoutdrop"} /\ dl[c][b] = "sending" /\ done[c]
+    /\ Design \in {"done", "serial", "timeoutdrop"} /\ dl[c][b] = "sending" /\ done[c]
     /\ dl' = [dl EXCEPT ![c][b] = "abandoned"]
     /\ lbl' = [a |-> "abandon", c |-> c, b |-> b]
+    /\ UNCHANGED <<pc, cancelled, wr, pings, requests, ch, done, got, targets, m, bpc, sent, bcur, panicked>>
+
+\* "serial" design: the single delivery goroutine of broadcast b turns to its next client only when it is through
+\* with the previous one
+SerialPick(c, b) ==
+    /\ Design = "serial" /\ dl[c][b] = "queued"
+    /\ \A o \in Clients : dl[o][b] \notin {"spawned", "sending"}
+    /\ dl' = [dl EXCEPT ![c][b] = "spawned"]
+    /\ lbl' = [a |-> "serialpick", c |-> c, b |-> b]
     /\ UNCHANGED <<pc, cancelled, wr, pings, requests, ch, done, got, targets, m, bpc, sent, bcur, panicked>>
 
 \* "timeoutdrop" design: case <-time.After(d): the goroutine stops waiting for a handler that is busy
@@ -210,7 +226,7 @@ Racy == \E c \in Clients : pc[c] = "loop" /\ Ready(c) >= 2
 
 Step == \/ \E c \in Clients : \/ Register(c) \/ Ping(c) \/ WriteDone(c) \/ WriteFail(c)
                               \/ Cancel(c) \/ ExitCtx(c) \/ Unregister(c) \/ BPick(c)
-        \/ \E c \in Clients, b \in B : Deliver(c, b) \/ Run(c, b) \/ Abandon(c, b) \/ TimeoutDrop(c, b)
+        \/ \E c \in Clients, b \in B : Deliver(c, b) \/ Run(c, b) \/ Abandon(c, b) \/ TimeoutDrop(c, b) \/ SerialPick(c, b)
         \/ BLock \/ BSpawn \/ BInline \/ BUnlock
 
 \* a panic kills the process: nothing happens afterwards
@@ -222,6 +238,7 @@ Fairness ==
                           /\ WF_vars(BPick(c))
     /\ \A c \in Clients \ Slow : WF_vars(WriteDone(c))
     /\ \A c \in Clients, b \in B : WF_vars(Run(c, b)) /\ SF_vars(Deliver(c, b)) /\ WF_vars(Abandon(c, b))
+                                    /\ WF_vars(SerialPick(c, b))
 
 Spec == Init /\ [][Next]_vars /\ Fairness
 
@@ -242,11 +259,14 @@ NoPanic == ~panicked
 \* C19: the broadcaster waits for nothing but m, and m is never held across a blocking operation
 BroadcasterNeverBlocks == bcur # None => pc[bcur] = "loop"
 
-\* C19: a client that is ready to receive is not kept waiting by any other client
+\* C19, independence of deliveries: a client that is ready to receive is not kept waiting by any other client --
+\* whatever the others do (stalled in a write for ever, on their way out, gone), the next step of every pending
+\* delivery to a ready client is enabled. A replay binds this directly: the real code must take that step.
 OthersUnaffected ==
     \A c \in Clients, b \in B :
         (pc[c] = "loop" /\ ch[c] = "open" /\ dl[c][b] \in {"spawned", "queued", "sending"} /\ ~panicked)
-            => (ENABLED Run(c, b) \/ ENABLED Deliver(c, b) \/ (ENABLED BInline /\ bcur = c) \/ ENABLED BPick(c))
+            => (ENABLED Run(c, b) \/ ENABLED Deliver(c, b) \/ (ENABLED BInline /\ bcur = c) \/ ENABLED BPick(c)
+                \/ ENABLED SerialPick(c, b))
 
 \* C19: no delivery goroutine is left blocked for ever once its client is gone
 NoLeak == \A c \in Clients, b \in B :
@@ -267,6 +287,11 @@ DeliveredAtQuiescence ==
 \* liveness (under Fairness): a client registered at the broadcast and still connected receives it
 Delivered == \A c \in Clients \ Slow, b \in B :
                  (c \in targets[b]) ~> (b \in got[c] \/ cancelled[c])
+\* the same with a stalled client named: while some client is stalled, every OTHER client registered at the broadcast
+\* still gets it (fairness only for the others: no WriteDone fairness for Slow clients)
+DeliveredDespiteStalledClient ==
+    \A c \in Clients \ Slow, b \in B :
+        (c \in targets[b] /\ \E s \in Slow : Stalled(s) /\ s \in targets[b]) ~> (b \in got[c] \/ cancelled[c])
 \* Send always returns
 SendReturns == (bpc # "idle") ~> (bpc = "idle")
 \* every delivery goroutine of a departed client ends
